@@ -479,7 +479,7 @@ def solver_postconditions(ctx, rule):
     # residual loop
     res_ok, res_fact = False, 'no residual loop'
     for stmt in walk_no_nested(cs_.node):
-        if isinstance(stmt, ast.For) and stmt.lineno > sol_stmt.lineno and all(dominates(stmt, bb[1]) or
+        if isinstance(stmt, ast.For) and ffs.seq(stmt) > ffs.seq(sol_stmt) and all(dominates(stmt, bb[1]) or
                                                                                _dominates_nested(stmt, bb[1]) for bb in builds):
             it = ffs.resolved.get(id(stmt))
             it_s = strip_refs(it)
